@@ -3,6 +3,7 @@
   Property theorems only; helper lemmas live in `Rsactor/Inv/`.
 -/
 import Rsactor.Inv.Cap
+import Rsactor.Ties.send_paths_shape
 
 namespace Rsactor.Props.C09
 open Rsactor Rsactor.Model Rsactor.Extracted
@@ -59,5 +60,9 @@ theorem term_channel_capacity : term_chan_cap = 1 := rfl
 example : ∃ s, run? (init 1 {}) [.gate, .startDone, .issue 0 { kind := .tell }, .push 0,
       .issue 0 { kind := .tell }] = some s ∧ s.mbox.length = 1 ∧ s.waiters.length = 1 := by
   refine ⟨_, rfl, ?_, ?_⟩ <;> decide
+
+
+/-! ### ties to the source: shape lemmas about the tables regenerated from /repo on every run -/
+-- @tie Rsactor.Ties.send_paths_shape
 
 end Rsactor.Props.C09
